@@ -96,23 +96,13 @@ Proof. eexists. split; [vm_compute; reflexivity|]. split; [reflexivity|]. split;
 
 (* ---- the subscriber clause ---- *)
 
-(* "A subscriber that keeps up eventually receives a snapshot equal to the quiescent map" is FALSE
-   of the model as it stands (SupSubs.subs_sched): the subscriber arrives before runnable 1 is
-   started; startRunnable stores runnable 1's initial state without a broadcast and the monitor
-   discards the first channel value because it equals the stored one.  At quiescence, context not
-   cancelled, channel drained, still registered: the subscriber's newest snapshot lacks the entry. *)
-Theorem C06_subscriber_refuted :
-  exists c ls s b,
-    run (step c) (init c) ls = Some s /\ quiescent c s = true /\ ctx_done s = false /\
-    find_sub 7 (subs s) = Some b /\ sub_registered b = true /\ sub_buf b = [] /\
-    last_sent s 7 = Some [Some 0; None] /\ smap s = [Some 0; Some 0].
-Proof. exact c06_subscriber_refuted. Qed.
-
-(* What holds: from the moment SubscribeStateChanges ran (LSubDo c0), along every run in which
-   (run_ok) the subscriber's channel has room at every broadcast, the stores done by startRunnable /
-   Shutdown / the reload manager do not change the map (the map is written by monitors only), the
-   state-monitor manager has not exited and c0 is not unsubscribed: in every quiescent state the
-   newest snapshot sent to c0 - the last one in its channel, or the last one it took - IS the map. *)
+(* From the moment SubscribeStateChanges ran (LSubDo c0), along every run in which (run_ok) the
+   subscriber's channel has room at every broadcast (a monitor's, or startRunnable's after it stored
+   the initial state of a newly started runnable), the stores done by Shutdown / the reload manager
+   do not change the map, the state-monitor manager has not exited and c0 is not unsubscribed: in
+   every quiescent state the newest snapshot sent to c0 - the last one in its channel, or the last
+   one it took - IS the map.  (Before the initial-broadcast repair of startRunnable this needed the
+   extra hypothesis that no runnable is started after the subscription: see C06_ex_late_entry.) *)
 Theorem C06_subscriber : forall c c0 s0 s1 ls s,
   reachable_sup c s0 -> step c s0 (LSubDo c0) = Some s1 ->
   run (step c) s1 ls = Some s -> run_ok c c0 s1 ls ->
@@ -127,7 +117,6 @@ Theorem C06_subscriber_drained : forall c c0 s0 s1 ls s b,
   last_recv c0 (hist s) = Some (smap s).
 Proof. exact sup_c06_subscriber_drained. Qed.
 
-Print Assumptions C06_subscriber_refuted.
 Print Assumptions C06_subscriber.
 Print Assumptions C06_subscriber_drained.
 
@@ -150,3 +139,13 @@ Proof.
   split; [vm_compute; reflexivity|]. split; [vm_compute; reflexivity|]. split; [reflexivity|].
   split; vm_compute; reflexivity.
 Qed.
+
+(* the schedule that refuted the clause before the repair: the subscriber arrives before runnable 1
+   is started, and runnable 1 never changes state afterwards.  startRunnable now broadcasts: at the
+   quiescent point the subscriber's channel holds the full map *)
+Example C06_ex_late_entry :
+  exists s b,
+    run (step subs_cfg) (init subs_cfg) subs_sched = Some s /\ quiescent subs_cfg s = true /\
+    find_sub 7 (subs s) = Some b /\ sub_buf b = [[Some 0; Some 0]] /\
+    last_sent s 7 = Some [Some 0; Some 0] /\ smap s = [Some 0; Some 0].
+Proof. exact subs_sched_delivers. Qed.
